@@ -442,6 +442,89 @@ fn run_ops(case: &str) -> (String, String, String) {
                     }
                 }
             }
+            ["blk", b] => {
+                // batches `A+B/C+INT`: the last one, and only it, contains INT
+                let mut batches: Vec<Vec<Number>> = vec![];
+                for part in b.split('/') {
+                    let mut v = vec![];
+                    for s in part.split('+') {
+                        let Some(n) = sig_of(s) else { return bad() };
+                        if n == SIGKILL || n == SIGSTOP {
+                            return bad();
+                        }
+                        v.push(n);
+                    }
+                    batches.push(v);
+                }
+                let last_ok = batches.last().is_some_and(|v| v.contains(&SIGINT));
+                if !last_ok || batches[..batches.len() - 1].iter().any(|v| v.contains(&SIGINT)) {
+                    return bad();
+                }
+                let int_default = w.env.traps.get_state(SIGINT).0.is_none_or(|t| t.action == Action::Default);
+                if w.disp(SIGINT) != Disposition::Catch || !int_default {
+                    "n/a".to_string()
+                } else {
+                    use std::future::Future as _;
+                    use yash_env::option::Option::Interactive;
+                    use yash_env::option::State::{Off, On};
+                    use yash_env::system::concurrency::Select as _;
+                    use yash_semantics::command::Command as _;
+                    w.env.options.set(Interactive, On);
+                    w.env.builtins.insert(
+                        "block",
+                        yash_env::builtin::Builtin::new(yash_env::builtin::Type::Mandatory, |_env, _args| {
+                            Box::pin(std::future::pending())
+                        }),
+                    );
+                    let command: yash_syntax::syntax::SimpleCommand = "block".parse().unwrap();
+                    let vs = w.vs.clone();
+                    let mut sent: Vec<Number> = vec![];
+                    let res = {
+                        let mut fut = Box::pin(command.execute(&mut w.env));
+                        let waker = std::task::Waker::noop();
+                        let mut cx = std::task::Context::from_waker(waker);
+                        let mut res = None;
+                        if let std::task::Poll::Ready(r) = fut.as_mut().poll(&mut cx) {
+                            res = Some(r);
+                        }
+                        for batch in &batches {
+                            if res.is_some() {
+                                break;
+                            }
+                            for n in batch {
+                                // a signal with the default action would end the process: not sent
+                                let d = vs.current_process().disposition(*n);
+                                if d != Disposition::Default {
+                                    let _ = vs.current_process_mut().raise_signal(*n);
+                                    if d == Disposition::Catch {
+                                        sent.push(*n);
+                                    }
+                                }
+                            }
+                            // the shell's select loop notices everything that is pending, in one batch
+                            system.peek();
+                            if let std::task::Poll::Ready(r) = fut.as_mut().poll(&mut cx) {
+                                res = Some(r);
+                            }
+                        }
+                        res
+                    };
+                    w.env.options.set(Interactive, Off);
+                    // no caught signal may be dropped when the built-in is interrupted
+                    for n in &sent {
+                        if !w.env.traps.get_state(*n).0.is_some_and(|t| t.pending) {
+                            fail = Some(format!("signal-dropped-by-interrupted-builtin:{}", name_of(*n)));
+                        }
+                    }
+                    use std::ops::ControlFlow::Break;
+                    use yash_env::semantics::Divert;
+                    match res {
+                        Some(Break(Divert::Interrupt(Some(st)))) => format!("int{}", st.0),
+                        Some(_) => "other".to_string(),
+                        None => "hang".to_string(),
+                    }
+                }
+            }
             ["run", e] | ["irun", _, e] => {
                 let Ok(e) = e.parse::<i32>() else { return bad() };
                 let mut raised: Option<Number> = None;
@@ -1059,6 +1142,7 @@ fn alphabet(f: &str) -> Vec<String> {
     ops.push("run 5".into());
     if f != "KILL" && f != "STOP" {
         ops.push(format!("irun {f} 4"));
+        ops.push(if f == "INT" { "blk INT".to_string() } else { format!("blk {f}+INT") });
     }
     ops
 }
@@ -1088,6 +1172,10 @@ fn random_op(r: &mut Rng, sigs: &[&str]) -> String {
         17 | 18 if s != "KILL" && s != "STOP" => format!("deliver {s}"),
         17 | 18 => format!("catch {s}"),
         _ if r.chance(1, 3) => format!("irun {s} {}", r.below(4)).replace("KILL", "INT").replace("STOP", "INT"),
+        _ if r.chance(1, 3) => {
+            let x = if s == "KILL" || s == "STOP" || s == "INT" { "USR1" } else { s };
+            r.pick(&[format!("blk {x}+INT"), format!("blk {x}/INT"), format!("blk {x}+{x}/TERM+INT+{x}"), "blk INT".to_string()]).clone()
+        }
         _ => format!("run {}", r.below(4)),
     }
 }
@@ -1238,6 +1326,22 @@ fn main() {
             lazy(&case);
         }
     }
+
+    // 4b. an interactive shell's interruptible built-in interrupted by SIGINT: every other signal with
+    //     every action, reported before / in the same batch as / around SIGINT
+    for x in ["USR1", "TERM", "QUIT", "CHLD", "TSTP"] {
+        for act in ["c1", "c1001", "i", "d", ""] {
+            for shape in ["X+INT", "INT+X", "X/INT", "X+X/INT", "X/X+INT", "X+TERM/INT+X", "INT"] {
+                for pre in ["term+", "term+; chld", "term+; stop+"] {
+                    let set = if act.is_empty() { String::new() } else { format!("set {x} {act} 1; ") };
+                    let case = format!("{pre}; {set}blk {}; run 5; run 6; take", shape.replace('X', x));
+                    lazy(&case);
+                }
+            }
+        }
+    }
+    lazy("set USR1 c1 0; blk USR1+INT; run 5");
+    lazy("term+; set INT c2 0; set USR1 c1 0; blk USR1+INT; run 5");
 
     // 5. the same at script level: traps that return / exit / fail / redefine themselves, signals
     //    sent together inside a function, a nested group or a dot script, by a built-in or from a
